@@ -332,8 +332,9 @@ class CaseEval:
 # ---- game extraction -----------------------------------------------------------------------------------------
 
 class Block:
-    def __init__(self, index, res_term, Lo, Li, var):
+    def __init__(self, index, res_term, Lo, Li, var, elt=None):
         self.index, self.res, self.Lo, self.Li, self.var = index, res_term, Lo, Li, var
+        self.elt = elt          # mapped block: entry term per tile (comprehension over a tile enumeration)
         self.builder = None
 
 
@@ -390,15 +391,56 @@ class Game:
                 fn = self.ctx.cfg  # placeholder
                 b.builder = _enclosing_function(self.ctx, Li.node)
                 self.blocks.append(b)
+            elif leaf[0] == "compr":
+                b = self._mapped_block(leaf)
+                if b is None:
+                    raise Undecided("%s: transition list part `%s` is a comprehension that is not a map over the tiles" % (self.func.short, show(leaf)[:80]))
+                self.blocks.append(b)
             elif leaf[0] == "list":
                 self.tail.extend(leaf[1])
             else:
                 raise Undecided("%s: transition list part `%s` is neither a builder block nor a literal" % (self.func.short, show(leaf)[:80]))
 
+    def _tile_enumeration(self, t):
+        """(Lo, Li, per-tile element term) if t enumerates the tiles row by row: nested range(length) x range(width) collect."""
+        if t[0] != "res" or t[1] not in self.sx.loops:
+            return None
+        Lo = self.sx.loops[t[1]]
+        v = t[2]
+        rng = lambda x: ("call", "range", (x,), ())
+        up = Lo.update.get(v)
+        if Lo.kind != "for" or Lo.source != rng(self.L) or up is None or up[0] != "res" or Lo.has_break or Lo.cont != FALSE or Lo.init.get(v) != ("list", ()):
+            return None
+        Li = self.sx.loops[up[1]]
+        if Li.kind != "for" or Li.source != rng(self.W) or Li.has_break or Li.cont != FALSE or Li.init.get(v) != ("acc", Lo.id, v):
+            return None
+        u = Li.update.get(v)
+        acc = ("acc", Li.id, v)
+        if u is None or u[0] != "cat" or u[1] != acc or u[2][0] != "list" or len(u[2][1]) != 1:
+            return None
+        return Lo, Li, u[2][1][0]
+
+    def _mapped_block(self, leaf):
+        from .symx import subst
+        Lc = self.sx.loops[leaf[1]]
+        if Lc.filters or Lc.ckind != "list" or not Lc.whole:
+            return None
+        te = self._tile_enumeration(Lc.source)
+        if te is None:
+            return None
+        Lo, Li, T = te
+        elem = ("elem", Lc.id)
+        elt = subst(Lc.elt, lambda x: T if x == elem else None)
+        b = Block(len(self.blocks), leaf, Lo, Li, None, elt=elt)
+        b.builder = _enclosing_function(self.ctx, Lc.node)
+        return b
+
     def entry(self, block, case, m, lt):
         """The transition list appended for tile (i,j) of `block` in `case` with moves[i][j]=m, loose[i][j]=lt."""
         binds = {self.L: case.L, self.W: case.W, ("elem", block.Lo.id): case.i, ("elem", block.Li.id): case.j}
         ce = CaseEval(self.sx, case, binds, m, lt, self.names)
+        if block.elt is not None:
+            return ce, ce.ev(block.elt)
         u = ce.ev(block.Li.update[block.var])
         acc = ("acc", block.Li.id, block.var)
         if u[0] == "cat" and u[1] == acc and u[2][0] == "list" and len(u[2][1]) == 1:
@@ -428,11 +470,27 @@ class Game:
             elif leaf[0] == "list":
                 for x in leaf[1]:
                     out.append((x, Poly.const(1)))
-            elif leaf[0] == "flatten":
-                out.append((("tile", leaf[1]), case.L * case.W))
+            elif leaf[0] == "flatten" or _flatten_arg(leaf) is not None:
+                arg = leaf[1] if leaf[0] == "flatten" else _flatten_arg(leaf)
+                out.append((("tile", arg), case.L * case.W))
             else:
                 raise Undecided("list segment `%s` not recognised" % show(leaf)[:80])
         return out
+
+
+def _flatten_arg(t):
+    """X for list(itertools.chain.from_iterable(X)), list(itertools.chain(*X)), sum(X, [])."""
+    if t[0] == "call" and t[1] == "list" and len(t[2]) == 1:
+        a = t[2][0]
+        if a[0] == "mcall" and a[2] == "from_iterable" and len(a[3]) == 1:
+            return a[3][0]
+        if a[0] in ("mcall", "call") and (a[2] if a[0] == "mcall" else a[1]) in ("chain", "itertools.chain"):
+            args = a[3] if a[0] == "mcall" else a[2]
+            if len(args) == 1 and args[0][0] == "star":
+                return args[0][1]
+    if t[0] == "call" and t[1] == "sum" and len(t[2]) == 2 and t[2][1] == ("list", ()):
+        return t[2][0]
+    return None
 
 
 def _pick(params, stem):
